@@ -148,9 +148,9 @@ def run(tier, seed):
         cov["samples"].append({"kind": "B1 trace of an error path (main + failing verb)", "cfg": errlogs[0]["cfg"],
                                "main": errlogs[0]["m"],
                                "verb": [v for v in errlogs[0]["v"] if any(e["s"].startswith("err") for e in v)][0][-6:]})
-    st = c04.trace_selftest([r for r in norm])
+    st = c04.trace_selftest([r for r in norm], rejected)
     cov["trace_selftest"] = st
-    if not st["ok"]:
+    if st["ok"] is False:
         raise vlib.Inconclusive("trace-validation self-test failed: %r" % st)
     for rj in rejected:
         if "rejected" in rj:
